@@ -37,7 +37,7 @@ MCNext ==
     \/ (NewtonEval /\ UNCHANGED nmods)
     \/ \E conv \in BOOLEAN, iters \in 0..MaxNewton, g \in Steps : NewtonEnd(conv, iters, g, FALSE) /\ UNCHANGED nmods
     \/ \E a \in BOOLEAN, g \in Steps : ErrTest(a, g, FALSE) /\ UNCHANGED nmods
-    \/ \E fl \in Flags : Callback(fl) /\ nmods' = IF fl = "Modified" THEN nmods + 1 ELSE nmods
+    \/ \E fl \in Flags, xm \in 0..S : Callback(fl, xm) /\ nmods' = IF fl = "Modified" THEN nmods + 1 ELSE nmods
     \/ \E no \in 0..MaxOrder, g \in HSet : Post(no, g) /\ UNCHANGED nmods
     \/ (JacOrd /\ UNCHANGED nmods)
     \/ (Done /\ UNCHANGED nmods)
